@@ -751,7 +751,8 @@ public:
             const XalanDOMString&   theTargetString,
             const XPath&            theMatchPattern,
             const XalanDOMString&   thePatternString,
-            XPath::eMatchScore      thePriority) = 0;
+            XPath::eMatchScore      thePriority,
+            size_type               theAlternative = 0) = 0;
 };
 
 
